@@ -1,4 +1,5 @@
 import XpmVerif.Proofs.SchedCap
+import XpmVerif.Properties.C06
 import XpmVerif.Generated.SchedFlags
 /-! C09 — tokens are always given back and waiting jobs eventually run (one scheduler, in-process token;
     the file-based multi-scheduler part is Properties/C09Files.lean).
@@ -42,9 +43,21 @@ theorem nothing_leaks (fl : Flags) (totals : List Nat) (s : St) (h : Reachable f
   obtain ⟨N, hi⟩ := h.inv
   exact (hi.cap t).1
 
-/- "A waiting job whose request fits the capacity is eventually launched": no-deadlock is supported by the
-   exhaustive and random schedule exploration of the check (monitors `hang`, `waiting-job-never-launched`);
-   the Lean statement (`quiescent_all_final`, DESIGN.md §4 M2) is not proved here, and livelock-freedom of
-   repeated aborted starts is not proved at all (partial, see DESIGN.md §10). -/
+/-- **"A waiting job whose request fits the capacity is eventually launched"** (liveness, proved in
+    Proofs/SchedTerm.lean for the four repairs): from every reachable state in which no job names the same token in
+    two dependencies (`NoDoubleTok`) and no request exceeds its token's total (`TokFit`), every maximal run of
+    `step`/`deliver` events is finite (`C06.every_run_finite`: length ≤ `mu s`) and at its end each scheduled job has
+    been launched exactly once — unless its success marker already existed or a job it depends on failed.
+    Both hypotheses are necessary (`C06.doubled_token_request_spins`; a request above the total waits forever), and so
+    is the repair `abortReleases` (`C06.aborted_starts_livelock_witness`, finding F32). -/
+theorem waiting_job_eventually_launched {fl : Flags} (hg : fl.readyGuarded = true) (hf : fl.resubmitRegisters = true)
+    (ha : fl.abortRechecks = true) (hr : fl.abortReleases = true) {totals : List Nat} {s : St}
+    (h : XpmVerif.SchedFinal.Reachable fl totals s) (hnd : XpmVerif.SchedFinal.NoDoubleTok s) (hfit : XpmVerif.SchedFinal.TokFit s)
+    (evs : List Ev) (hrun : XpmVerif.SchedFinal.RunOK fl s evs)
+    (hmax : ∀ ev, ¬ XpmVerif.SchedFinal.Enabled (evs.foldl (St.apply fl) s) ev) (j : Nat)
+    (hj : j < (evs.foldl (St.apply fl) s).n) (hs : ((evs.foldl (St.apply fl) s).jobs j).pc ≠ .none) :
+    ((evs.foldl (St.apply fl) s).jobs j).launches = 1 ∨ ((evs.foldl (St.apply fl) s).jobs j).marker = true ∨
+    ((evs.foldl (St.apply fl) s).jobs j).failedDep = true :=
+  XpmVerif.C06.every_job_eventually_launched hg hf ha hr h hnd hfit evs hrun hmax j hj hs
 
 end XpmVerif.C09
